@@ -37,6 +37,119 @@ type StreamConfig struct {
 	TempErr     []int  `json:"temp_err,omitempty"`      // read indices at which a transient error is injected
 	ErrWithData bool   `json:"err_with_data,omitempty"` // transient error returned together with n>0
 	EofAt       int    `json:"eof_at"`                  // -1: EOF after the last byte; else stream cut at this byte offset
+	// dgram, udp: the blocks travel in datagrams - consecutive whole blocks, as many as fit the budget Reads[k] (at
+	// least one, never more than the maximum packet size) - and every datagram is framed on its own. Hostile lists
+	// datagrams that no decoder accepts, slipped in between (C04: they must change nothing but counters)
+	Hostile []HostileDgram `json:"hostile,omitempty"`
+}
+
+// HostileDgram is one undecodable datagram, put on the wire before good datagram number At (or after the last one).
+type HostileDgram struct {
+	At   int    `json:"at"`
+	Kind string `json:"kind"` // trunc (a block cut short) | hugelen (a length beyond the maximum packet size) | hdr (an unfinished header) | empty
+	Arg  int    `json:"arg"`
+}
+
+var hostileKinds = []string{"trunc", "trunc", "hugelen", "hugelen", "hdr", "empty"}
+
+func hostileBytes(h HostileDgram) []byte {
+	switch h.Kind {
+	case "trunc":
+		l := 2 + h.Arg%2000
+		b := blockBytes(900000+h.Arg, 6, l)
+		return b[:1+(h.Arg*7)%(len(b)-1)]
+	case "hugelen":
+		b := []byte{6}
+		switch h.Arg % 5 {
+		case 0:
+			b = append(b, 0xfd, 0x22, 0x61) // 8801
+		case 1:
+			b = append(b, 0xfd, 0xff, 0xff)
+		case 2:
+			b = append(b, 0xfe, 0x7f, 0xff, 0xff, 0xff)
+		case 3:
+			b = append(b, 0xff, 0x80, 0, 0, 0, 0, 0, 0, 0)
+		case 4:
+			b = append(b, 0xff, 0xff, 0xff, 0xff, 0xff, 0xff, 0xff, 0xff, 0xff)
+		}
+		for j := 0; j < h.Arg%300; j++ {
+			b = append(b, byte(j))
+		}
+		return b
+	case "hdr":
+		return [][]byte{{0xfd}, {0xfe, 0, 1}, {6, 0xfd}, {6, 0xfd, 1}, {0xff, 1, 2, 3}, {6, 0xfe, 0, 0}}[h.Arg%6]
+	}
+	return []byte{}
+}
+
+// datagrams groups the blocks into datagrams and slips the hostile ones in; want = the blocks of the good ones.
+func datagrams(blocks [][]byte, budgets []int, hostile []HostileDgram) (out [][]byte, isHostile []bool) {
+	var good [][]byte
+	for i, k := 0, 0; i < len(blocks); k++ {
+		budget := budgets[k%len(budgets)]
+		if budget > maxPkt {
+			budget = maxPkt
+		}
+		d := append([]byte(nil), blocks[i]...)
+		i++
+		for i < len(blocks) && len(d)+len(blocks[i]) <= budget {
+			d = append(d, blocks[i]...)
+			i++
+		}
+		good = append(good, d)
+	}
+	for g := 0; g <= len(good); g++ {
+		for _, h := range hostile {
+			if h.At == g || (g == len(good) && h.At > g) {
+				out = append(out, hostileBytes(h))
+				isHostile = append(isHostile, true)
+			}
+		}
+		if g < len(good) {
+			out = append(out, good[g])
+			isHostile = append(isHostile, false)
+		}
+	}
+	return
+}
+
+// dgramReader is a datagram socket: every Read returns one datagram (what does not fit the buffer is discarded).
+type dgramReader struct {
+	dgrams   [][]byte
+	hostile  []bool
+	i        int
+	ri       int
+	tempErr  map[int]bool
+	ctx      *kit.Ctx
+	calls    int
+	maxCalls int
+	spun     bool
+}
+
+func (c *dgramReader) Read(p []byte) (int, error) {
+	c.calls++
+	if c.calls > c.maxCalls {
+		c.spun = true
+		return 0, errSpin
+	}
+	idx := c.ri
+	c.ri++
+	if c.tempErr[idx] {
+		c.ctx.Fault("transient-read-error")
+		return 0, errTransient
+	}
+	if c.i >= len(c.dgrams) {
+		return 0, io.EOF
+	}
+	if len(p) == 0 {
+		return 0, nil
+	}
+	d := c.dgrams[c.i]
+	if c.hostile[c.i] {
+		c.ctx.Fault("undecodable-datagram")
+	}
+	c.i++
+	return copy(p, d), nil
 }
 
 type Block struct {
@@ -119,6 +232,18 @@ func (StreamEngine) Generate(prop string, r *kit.Rand, tier string) *kit.Scenari
 		if r.Chance(0.5) {
 			c.FaceMtu = kit.Pick(r, []int{128, 576, 1200, 1500, 4000})
 		}
+	} else if r.Chance(0.06) {
+		c.Target = "dgram"
+	}
+	if prop == "C04" {
+		// C04's part: datagram faces under undecodable datagrams
+		c.Target = "dgram"
+		if r.Chance(0.04) {
+			c.Target = "udp"
+		}
+	}
+	if t := os.Getenv("VERIF_STREAM_TARGET"); t != "" {
+		c.Target = t // experiments only
 	}
 	c.EofAt = -1
 	// total size: mostly beyond one buffer wrap (32 x 8800 = 281600 bytes)
@@ -201,6 +326,23 @@ func (StreamEngine) Generate(prop string, r *kit.Rand, tier string) *kit.Scenari
 	if r.Chance(0.3) || (c.Target == "tcpout" && r.Chance(0.8)) {
 		c.EofAt = r.Range(0, sum)
 	}
+	if c.Target == "dgram" || c.Target == "udp" {
+		// Reads are the datagrams' size budgets; nothing is cut (a datagram arrives whole or not at all)
+		c.EofAt = -1
+		c.Reads = nil
+		for i, n := 0, r.Range(1, 8); i < n; i++ {
+			c.Reads = append(c.Reads, kit.Pick(r, []int{1, 1, 300, 1200, 1500, 4000, 8800, 8800}))
+		}
+		if prop == "C04" {
+			nb := 0
+			for _, b := range sc.Ops {
+				nb += max(b.N, 1)
+			}
+			for i, n := 0, r.Range(1, 6); i < n; i++ {
+				sc.Config.Hostile = append(sc.Config.Hostile, HostileDgram{At: r.Intn(nb + 1), Kind: kit.Pick(r, hostileKinds), Arg: r.Intn(100000)})
+			}
+		}
+	}
 	return sc
 }
 
@@ -220,6 +362,18 @@ func (StreamEngine) Simplify(sc *kit.Scenario[StreamConfig, Block]) []*kit.Scena
 	}
 	if sc.Config.EofAt >= 0 {
 		modC(func(c *StreamConfig) { c.EofAt = -1 })
+	}
+	for i := range sc.Config.Hostile {
+		i := i
+		modC(func(c *StreamConfig) {
+			c.Hostile = append(append([]HostileDgram(nil), c.Hostile[:i]...), c.Hostile[i+1:]...)
+		})
+		if sc.Config.Hostile[i].Arg > 0 {
+			modC(func(c *StreamConfig) {
+				c.Hostile = append([]HostileDgram(nil), c.Hostile...)
+				c.Hostile[i].Arg /= 2
+			})
+		}
 	}
 	if len(sc.Config.Reads) > 1 {
 		modC(func(c *StreamConfig) { c.Reads = c.Reads[:1] })
@@ -356,6 +510,12 @@ func (e StreamEngine) Run(t *testing.T, ctx *kit.Ctx, sc *kit.Scenario[StreamCon
 	}
 	data := stream[:cut]
 	var got [][]byte
+	// what goes wrong after an undecodable datagram is C04's ("a frame that fails to decode changes no state")
+	pfx := "C11"
+	if len(sc.Config.Hostile) > 0 {
+		pfx = "C04"
+	}
+	faceDown := false
 	fail := func(class, key, format string, a ...any) *kit.Result {
 		res.Violation = &kit.Violation{Class: class, Key: key, Step: -1, Detail: fmt.Sprintf(format, a...)}
 		return res
@@ -384,6 +544,21 @@ func (e StreamEngine) Run(t *testing.T, ctx *kit.Ctx, sc *kit.Scenario[StreamCon
 		if rd.calls > 0 && len(data) > maxPkt*32 {
 			ctx.Probe("stream-longer-than-receive-buffer")
 		}
+	case "dgram":
+		// the framing loop of the datagram transports over a scripted datagram socket
+		dg, hostile := datagrams(blocks, reads, sc.Config.Hostile)
+		want = blocks
+		rd := &dgramReader{dgrams: dg, hostile: hostile, tempErr: tempErr, ctx: ctx, maxCalls: 4*len(dg) + 1000}
+		runErr = face.VerifReadTlvDatagrams(rd, func(f []byte) {
+			got = append(got, append([]byte(nil), f...))
+		}, func(err error) bool { return errors.Is(err, errTransient) })
+		if rd.spun {
+			return fail(pfx+"/framing-spins-without-progress", "dgram", "the datagram receive loop made %d Read calls for %d datagrams without finishing (%d of %d blocks delivered)", rd.calls, len(dg), len(got), len(want))
+		}
+		if runErr == nil && rd.i < len(dg) {
+			return fail(pfx+"/receive-loop-ended-early", "dgram", "the datagram receive loop returned after %d of %d datagrams", rd.i, len(dg))
+		}
+		ctx.Probe("datagram-framing")
 	case "tcp", "unix":
 		wire := openRealWire(sc.Config.Target)
 		if wire == nil {
@@ -547,22 +722,17 @@ func (e StreamEngine) Run(t *testing.T, ctx *kit.Ctx, sc *kit.Scenario[StreamCon
 			return res
 		}
 		outstanding := 0
-		for off, i := 0, 0; off < len(data); i++ {
-			n := reads[i%len(reads)]
-			if n < 1 {
-				n = 1
-			}
-			if n > 60000 {
-				n = 60000
-			}
-			if n > len(data)-off {
-				n = len(data) - off
-			}
-			if _, err := wire.udpPeer.WriteToUDP(data[off:off+n], wire.udpDst); err != nil {
+		dg, _ := datagrams(blocks, reads, sc.Config.Hostile)
+		want = blocks
+		ends = ends[:0]
+		for range want {
+			ends = append(ends, 0)
+		}
+		for _, d := range dg {
+			if _, err := wire.udpPeer.WriteToUDP(d, wire.udpDst); err != nil {
 				break
 			}
-			off += n
-			outstanding += 1280 + 2*n // what a queued datagram costs the socket's receive buffer, generously
+			outstanding += 1280 + 2*len(d) // what a queued datagram costs the socket's receive buffer, generously
 			if outstanding > 48<<10 {
 				drained()
 				outstanding = 0
@@ -578,6 +748,11 @@ func (e StreamEngine) Run(t *testing.T, ctx *kit.Ctx, sc *kit.Scenario[StreamCon
 				break
 			}
 			time.Sleep(100 * time.Microsecond)
+		}
+		select {
+		case <-ls.Done():
+			faceDown = true // the transport gave up although nobody closed it
+		default:
 		}
 		wire.udp.Close()
 		<-ls.Done() // (a loop that never ends is a hang, see above)
@@ -632,6 +807,23 @@ func (e StreamEngine) Run(t *testing.T, ctx *kit.Ctx, sc *kit.Scenario[StreamCon
 	}
 	res.Steps = len(blocks)
 	key := sc.Config.Target
+	if faceDown {
+		return fail(pfx+"/face-closed-by-datagram", key, "the transport closed itself after %d of %d blocks; nothing but datagrams had been sent to it", len(got), len(want))
+	}
+	if pfx == "C04" {
+		// C04 judges only what the undecodable datagrams did to the others
+		if runErr != nil {
+			return fail("C04/undecodable-datagram-changed-state", key+"/loop-ended", "the receive loop stopped with error %v after %d of %d blocks", runErr, len(got), len(want))
+		}
+		for i := 0; i < len(got) && i < len(want); i++ {
+			if !bytes.Equal(got[i], want[i]) {
+				return fail("C04/undecodable-datagram-changed-state", key+"/later-frame-altered", "frame %d: got %d bytes, block sent was %d bytes (first difference at %d)", i, len(got[i]), len(want[i]), firstDiff(got[i], want[i]))
+			}
+		}
+		if len(got) != len(want) {
+			return fail("C04/undecodable-datagram-changed-state", key+"/frames-lost-or-invented", "%d blocks sent in well-formed datagrams, %d frames delivered", len(want), len(got))
+		}
+	}
 	if runErr != nil {
 		return fail("C11/well-formed-stream-rejected", key, "framing stopped with error %v after %d of %d blocks", runErr, len(got), len(want))
 	}
@@ -653,7 +845,7 @@ func (e StreamEngine) Run(t *testing.T, ctx *kit.Ctx, sc *kit.Scenario[StreamCon
 	wraps := len(data) / (maxPkt * 32)
 	ctx.ProbeN("buffer-wraps", wraps)
 	res.NonTrivial = (wraps >= 1 && hdrEnds > 0) || (sc.Config.Target != "fw" && len(blocks) > 3)
-	d := kit.NewDigest().I(len(blocks)).I(len(data)).S(strings.Trim(fmt.Sprint(sc.Config.Reads), "[]")).I(sc.Config.EofAt).S(sc.Config.Target).I(sc.Config.FaceMtu).I(sc.Config.PauseMs).S(fmt.Sprint(sc.Config.PauseAt))
+	d := kit.NewDigest().S(fmt.Sprint(sc.Config.Hostile)).I(len(blocks)).I(len(data)).S(strings.Trim(fmt.Sprint(sc.Config.Reads), "[]")).I(sc.Config.EofAt).S(sc.Config.Target).I(sc.Config.FaceMtu).I(sc.Config.PauseMs).S(fmt.Sprint(sc.Config.PauseAt))
 	for _, b := range sc.Ops {
 		d.I(b.T).I(b.L).I(b.N)
 	}
